@@ -157,3 +157,69 @@ fsv_multi(const double* elev, const double* elev2, int rounds, double p1, double
             donors[i * (FSV_D + 1) + k] = impl.m_donors(i, k);
     }
 }
+
+// history independence of the routers (C09, router-only operator sequences): graph G1 processes call A
+// (elevation A, base levels A, mask A) and then call B; a fresh graph G2 processes call B only; both states are returned.
+// multi = 0: single_flow_router (threads as given), multi = 1: multi_flow_router (exponents pA then pB)
+FSV_API void
+fsv_history(int multi, int threads, const double* elevA, const uint8_t* maskA, int use_maskA, const uint64_t* blA, uint64_t nblA, double pA,
+            double* elevB, const uint8_t* maskB, int use_maskB, const uint64_t* blB, uint64_t nblB, double pB,
+            uint8_t left, uint8_t right, double spacing, const uint64_t* cnt, const uint64_t* nb, const double* dist,
+            uint64_t* rec1, double* rdist1, double* rweight1, uint64_t* rcount1, uint64_t* dcount1, uint64_t* donors1,
+            uint64_t* rec2, double* rdist2, double* rweight2, uint64_t* rcount2, uint64_t* dcount2, uint64_t* donors2)
+{
+    grid_args ga{ left, right, spacing, cnt, nb, dist, nullptr };
+    grid_t grid1 = make_grid(ga);
+    grid_t grid2 = make_grid(ga);
+    const int R = multi ? FSV_D : 1;
+    impl_t g1(grid1, !multi);
+    impl_t g2(grid2, !multi);
+    fs::thread_pool<size_t> pool(10);
+    xt::xarray<double> e = xt::zeros<double>({ (size_t) FSV_N });
+    // G1: operator objects created with the parameters of call A, changed for call B; G2: fresh objects with call B's
+    auto srouter1 = std::make_shared<fs::single_flow_router>(threads);
+    auto mrouter1 = std::make_shared<fs::multi_flow_router>(pA);
+    single_impl_t sop1(srouter1);
+    multi_impl_t mop1(mrouter1);
+    auto srouter2 = std::make_shared<fs::single_flow_router>(threads);
+    auto mrouter2 = std::make_shared<fs::multi_flow_router>(pB);
+    single_impl_t sop2(srouter2);
+    multi_impl_t mop2(mrouter2);
+    auto run = [&](impl_t& g, single_impl_t& sop, multi_impl_t& mop, std::shared_ptr<fs::multi_flow_router>& mr, const double* el,
+                   const uint8_t* mk, int um, const uint64_t* bl, uint64_t nbl, double p)
+    {
+        setup(g, mk, um, bl, nbl);
+        for (int i = 0; i < FSV_N; i++)
+            e.flat(i) = el[i];
+        if (multi)
+        {
+            mr->m_slope_exp = p;
+            mop.apply(g, e, pool);
+        }
+        else
+            sop.apply(g, e, pool);
+    };
+    run(g1, sop1, mop1, mrouter1, elevA, maskA, use_maskA, blA, nblA, pA);
+    run(g1, sop1, mop1, mrouter1, elevB, maskB, use_maskB, blB, nblB, pB);
+    for (int i = 0; i < FSV_N; i++)
+        elevB[i] = e.flat(i);  // what the operators left in the elevation array they were given
+    run(g2, sop2, mop2, mrouter2, elevB, maskB, use_maskB, blB, nblB, pB);
+    auto dump = [&](impl_t& g, uint64_t* rec, double* rdist, double* rweight, uint64_t* rcount, uint64_t* dcount, uint64_t* donors)
+    {
+        for (int i = 0; i < FSV_N; i++)
+        {
+            rcount[i] = g.m_receivers_count(i);
+            dcount[i] = g.m_donors_count(i);
+            for (int k = 0; k < R; k++)
+            {
+                rec[i * R + k] = g.m_receivers(i, k);
+                rdist[i * R + k] = g.m_receivers_distance(i, k);
+                rweight[i * R + k] = g.m_receivers_weight(i, k);
+            }
+            for (int k = 0; k < FSV_D + 1; k++)
+                donors[i * (FSV_D + 1) + k] = g.m_donors(i, k);
+        }
+    };
+    dump(g1, rec1, rdist1, rweight1, rcount1, dcount1, donors1);
+    dump(g2, rec2, rdist2, rweight2, rcount2, dcount2, donors2);
+}
